@@ -142,6 +142,23 @@ let mb_s (m : mailbox) = opt_hex m.mb_name ^ "," ^ uhex m.mb_email
 let mberr_s = function MInvalidInput -> "InvalidInput" | MInvalidUser -> "InvalidUser" | MInvalidDomain -> "InvalidDomain"
 let raw_s (n, (u, d)) = opt_hex n ^ "," ^ uhex u ^ "," ^ uhex d
 
+let parse_bop (s : Stdlib.String.t) : bop =
+  let mb n e = { mb_name = (if n = "!" then None else Some (ustr_of_hex n)); mb_email = ustr_of_hex e } in
+  match split ',' s with
+  | ["from"; n; e] -> BList (HFrom, mb n e)
+  | ["to"; n; e] -> BList (HTo, mb n e)
+  | ["cc"; n; e] -> BList (HCc, mb n e)
+  | ["bcc"; n; e] -> BList (HBcc, mb n e)
+  | ["reply_to"; n; e] -> BList (HReplyTo, mb n e)
+  | ["sender"; n; e] -> BSender (mb n e)
+  | ["envelope"; f; tos] -> BEnvelope { env_from = (if f = "!" then None else Some (ustr_of_hex f)); env_to = List.map ustr_of_hex (split '|' tos) }
+  | ["keepbcc"] -> BKeepBcc
+  | _ -> failwith ("bop " ^ s)
+let build_res_s = function
+  | Ok (e, bcc) -> Printf.sprintf "ok\t%s\t%s\t%s" (opt_hex e.env_from) (String.concat "|" (List.map uhex e.env_to)) (b01 bcc)
+  | Err MissingFrom -> "err\tMissingFrom" | Err TooManyFrom -> "err\tTooManyFrom" | Err MissingTo -> "err\tMissingTo"
+  | Panic -> "PANIC"
+
 let dispatch (f : Stdlib.String.t list) : Stdlib.String.t =
   match f with
   | ["codec.encode"; st; m] ->
@@ -252,6 +269,10 @@ let dispatch (f : Stdlib.String.t list) : Stdlib.String.t =
       let (rs, hs) = run_hops (List.map parse_op (split ';' ops)) [] in
       let r_s = function HRNone -> "none" | HRSome v -> "some:" ^ hex v | HRUnit -> "unit" | HRPanic -> "panic" in
       String.concat ";" (List.map r_s rs) ^ "\t" ^ hex (show_headers hs)
+  | ["builder.ops"; ops; tbl] ->
+      let (idna, ip_ok) = mk_oracle_table tbl in
+      build_res_s (build_ops alnum_fn idna ip_ok (List.map parse_bop (split ';' ops)))
+  | ["spec.build"; ops] -> build_res_s (spec_build (List.map parse_bop (split ';' ops)))
   | fn :: _ -> "UNKNOWN-FN " ^ fn
   | [] -> "EMPTY"
 
